@@ -9,7 +9,13 @@ LIBFUNCS(X)
 LIBFUNCS_OMP(X)
 #endif
 #undef X
+#if V_MMC
+extern mmb_t P(m4ri_mmc_cache)[];
+#endif
 const lib_t P(m4sim_lib) = {
+#if V_MMC
+  .mmc_cache = P(m4ri_mmc_cache),
+#endif
   .name = VNAME, .sse2 = V_SSE2, .mmc = V_MMC, .mzdcache = V_MZDCACHE, .openmp = V_OPENMP, .knobs = V_KNOBS,
 #define X(r, n, a) .n = P(n),
   LIBFUNCS(X)
